@@ -36,7 +36,7 @@ def cases(draw, tier="quick", dim=3):
         sc = draw(GEN.scenes3d(max_gt=10 if tier == "thorough" else 7, max_est=12 if tier == "thorough" else 8, allow_fp_gt=False, allow_map=True, min_gt=1, min_est=1, spacing=draw(st.sampled_from([4.0, 8.0]))))
         mode = draw(GEN.modes3d())
     else:
-        sc = draw(GEN.scenes2d(max_gt=8, max_est=8, allow_fp_gt=False))
+        sc = draw(GEN.scenes2d(max_gt=8, max_est=8, allow_fp_gt=False, fam=draw(st.sampled_from(["autoware", "tl"]))))
         mode = draw(GEN.modes2d())
     n = len(sc["targets"])
     if mode in DIST:
@@ -62,7 +62,7 @@ def _evaluate(ctx, d, results, gts, thr):
     from perception_eval.evaluation.matching.objects_filter import divide_objects, divide_objects_to_num, get_negative_objects, get_positive_objects
     from perception_eval.evaluation.metrics.detection.map import Map
 
-    targets = D.labels(d["targets"])
+    targets = D.labels(d["targets"], d.get("fam", "autoware"))
     mode = D.mode(d["mode"])
     out = None
     with ctx.under_test("get_positive_objects/get_negative_objects/Map"):
